@@ -625,7 +625,9 @@ class DebianCopyright(object):
                 and para2.is_all_unknown()
             ):
                 para1.license.name = ''
-                para1.license.text = para2.to_dict().get('unknown', '')
+                # keep every value of the folded paragraph: its fields may be
+                # named "unknown", "unknown_1", "unknown_foo", ...
+                para1.license.text = '\n'.join(para2.to_dict().values())
 
                 # The updated CopyrightLicenseParagraph paragraph lines extend
                 # from its original start line to the end line of the
